@@ -4,6 +4,9 @@ P=$(realpath $1); shift
 git -C /repo apply "$P" || { echo "patch does not apply"; exit 2; }
 for pid in "$@"; do
   echo "=== $pid with $(basename $(dirname $P))/$(basename $P)"
+  # the evidence file must keep describing the unchanged tree: put the committed one back after the run on the patched tree
+  cp /verif/evidence/$pid.json /tmp/.try_patch_evidence_$pid.json 2>/dev/null
   ( cd /verif && timeout 1800 ./check $pid --tier ${TIER:-quick} 2>&1 | grep -v "^  #" | tail -${LINES_OUT:-6} )
+  [ -f /tmp/.try_patch_evidence_$pid.json ] && mv /tmp/.try_patch_evidence_$pid.json /verif/evidence/$pid.json
 done
 git -C /repo checkout -- .
